@@ -1,7 +1,10 @@
 (* The JSON decoder: fastjson (byte-level model of Model/Text.v) followed by an interpreter of the read
    tables regenerated from /repo (Gen/JsonR.v: every JSONLoad* function, statement by statement), the type
    dispatch of JSONLoadItem (Gen/Switches.v) and hand-written models of the getters of decoding_json.go.
-   Results: Some i (INil = the nil item); None = outside the modelled domain (stated per getter). *)
+   Results: Some i (INil = the nil item); None = outside the modelled domain (stated per getter).
+   One level of JSONLoadItem is [load_item_level rec] (Section Level), with the loader of embedded values as
+   a parameter; [load_item] ties the knot over the fuel.  The getters are top-level definitions so that
+   Proofs/DecEquivP.v and Proofs/ShapeP.v can state lemmas about each of them. *)
 From AP.Model Require Import Prelude Bytes Vocab Pred Url IriEq Nlv Text Equal Coll Dispatch Layout JsonTables JsonLeaf JsonCheck.
 Open Scope Z_scope.
 
@@ -236,235 +239,275 @@ Section Dec.
                        | None => []
                        end) (layout_of k).
 
+  (* ---- one level of JSONLoadItem: [rec] is the loader for embedded values (load_item at the next fuel) ---- *)
+  Section Level.
+    Variable rec : fjv -> option item.
+
+    (* JSONItemsFn on an array: nil results are skipped, ItemCollection.Append drops repeats *)
+    Definition items_go : list fjv -> list item -> option (list item) :=
+      fix go (l : list fjv) (acc : list item) : option (list item) :=
+        match l with
+        | [] => Some acc
+        | x :: r => match rec x with
+                    | None => None
+                    | Some INil => go r acc
+                    | Some i => go r (ic_append acc [i])
+                    end
+        end.
+    Definition items_fn (l : list fjv) : option (list item) := items_go l [].
+
+    (* JSONGetItem *)
+    Definition jget_item (val : fjv) (prop : bytes) : option item :=
+      match jget val prop with
+      | None => Some INil
+      | Some (FStr raw) => match as_iri (FStr raw) with
+                           | Some (Some s) => Some (IIri false s)
+                           | Some None => Some INil
+                           | None => None
+                           end
+      | Some (FArr l) => match items_fn l with Some its => Some (IItems false (Some its)) | None => None end
+      | Some (FObj kvs) => rec (FObj kvs)
+      | Some _ => Some INil
+      end.
+    (* JSONGetURIItem *)
+    Definition jget_uri_item (val : fjv) (prop : bytes) : option item :=
+      match jget val prop with
+      | None => Some INil
+      | Some (FObj kvs) => rec (FObj kvs)
+      | Some (FArr l) => match items_fn l with Some its => Some (IItems false (Some its)) | None => None end
+      | Some (FStr raw) => Some (IIri false (fj_unescape raw))
+      | Some _ => Some INil
+      end.
+    (* JSONGetItems *)
+    Definition jget_items (val : fjv) (prop : bytes) : option (option (list item)) :=
+      match jget val prop with
+      | None => Some None
+      | Some (FArr l) => match items_fn l with Some [] => Some None | Some its => Some (Some its) | None => None end
+      | Some (FObj kvs) => match rec (FObj kvs) with
+                           | Some INil => Some None
+                           | Some i => Some (Some [i])
+                           | None => None
+                           end
+      | Some (FStr raw) => match fj_unescape raw with [] => Some None | s => Some (Some [IIri false s]) end
+      | Some _ => Some None
+      end.
+
+    (* "a.b": member b of member a *)
+    Definition sub_get (val : fjv) (term : bytes) : option fjv :=
+      match cut_byte x2e term with
+      | (a, Some b) => match jget val a with Some s => jget s b | None => None end
+      | (a, None) => jget val a
+      end.
+
+    (* `x != nil;GetLink`: the link of the loaded item *)
+    Definition link_guard (gd : bytes) (x : fval) : fval :=
+      if bytes_eqb gd (B "x != nil;GetLink")
+      then match x with
+           | FItem i => match get_link i with Ok s => Vocab.FStr s | _ => Vocab.FStr [] end
+           | _ => x
+           end
+      else x.
+
+    Definition string_getters : list bytes :=
+      [B "JSONGetID"; B "JSONGetType"; B "JSONGetMimeType"; B "JSONGetString"; B "JSONGetIRI";
+       B "JSONGetLangRefField"; B "val.GetStringBytes"; B "val.Get.GetStringBytes"].
+
+    (* the statements of a leaf table (GetAPSource, JSONGetActorEndpoints, JSONLoadPublicKey) on [sub];
+       [gv] = the getter at the next depth; leaf tables do not delegate *)
+    Definition run_stmts (gv : fjv -> bytes -> bytes -> bytes -> option (option fval)) (sub : fjv)
+      : list rstmt -> list (fid * fval) -> option (list (fid * fval)) :=
+      fix go (stmts : list rstmt) (acc : list (fid * fval)) : option (list (fid * fval)) :=
+        match stmts with
+        | [] => Some acc
+        | RProp fd tm g cv gd _ :: r =>
+            match gv sub g tm cv with
+            | None => None
+            | Some None => go r acc
+            | Some (Some x) =>
+                let x' := link_guard gd x in
+                go r (if fval_is_zero x' then acc else setf fd x' acc)
+            end
+        | RDelegate _ fn _ :: r => None
+        | RUnrecognised _ _ :: _ => None
+        end.
+    Definition run_leaf (gv : fjv -> bytes -> bytes -> bytes -> option (option fval)) (name : bytes) (sub : fjv)
+      : option (list (fid * fval)) :=
+      run_stmts gv sub (match jr_table jr_tables name with Some st => st | None => [RUnrecognised [] []] end) [].
+
+    (* one property through its getter; Some None = the zero value; None = outside the model *)
+    Fixpoint get_value (depth : nat) (val : fjv) (getter term conv : bytes) {struct depth} : option (option fval) :=
+      match depth with
+      | O => None
+      | S d =>
+          if existsb (bytes_eqb getter) string_getters
+          then Some (match jstr (sub_get val term) with [] => None | s => Some (Vocab.FStr s) end)
+          else if bytes_eqb getter (B "JSONGetNaturalLanguageField") then
+            match cut_byte x2e term with
+            | (a, Some b) =>     (* JSONGetNaturalLanguageField(val.Get(a), b); kept only when non-empty *)
+                match jget val a with
+                | None => Some None
+                | Some s => match get_nl_field false s b with
+                            | Some ((_ :: _) as l) => Some (Some (FNlv (Some l)))
+                            | _ => Some None
+                            end
+                end
+            | (_, None) => match get_nl_field false val term with
+                           | Some l => Some (Some (FNlv (Some l)))
+                           | None => Some None
+                           end
+            end
+          else if bytes_eqb getter (B "JSONGetItem") then
+            match jget_item val term with Some INil => Some None | Some i => Some (Some (FItem i)) | None => None end
+          else if bytes_eqb getter (B "JSONGetURIItem") then
+            match jget_uri_item val term with Some INil => Some None | Some i => Some (Some (FItem i)) | None => None end
+          else if bytes_eqb getter (B "JSONGetItems") then
+            match jget_items val term with Some None => Some None | Some l => Some (Some (FItems l)) | None => None end
+          else if bytes_eqb getter (B "JSONGetTime") then
+            match parse_rfc3339 (jstr (jget val term)) with
+            | Some (Some t) => Some (Some (FTime t))
+            | Some None => Some None
+            | None => None
+            end
+          else if bytes_eqb getter (B "JSONGetDuration") then
+            match parse_xsd_duration (jstr (jget val term)) with Some 0 => Some None | Some d => Some (Some (FDur d)) | None => None end
+          else if bytes_eqb getter (B "JSONGetInt") then
+            match get_int64 (jget val term) with
+            | Some z => Some (if z =? 0 then None
+                              else Some (if bytes_eqb conv (B "uint") then FUint (uint_of z) else FInt z))
+            | None => None
+            end
+          else if bytes_eqb getter (B "JSONGetFloat") then
+            match get_float_micro (jget val term) with Some 0 => Some None | Some m => Some (Some (FFloat m)) | None => None end
+          else if bytes_eqb getter (B "JSONGetBoolean") then
+            Some (match jget val term with Some FTrue => Some (FBool true) | _ => None end)
+          else if bytes_eqb getter (B "GetAPSource") then
+            match run_leaf (get_value d) (B "GetAPSource") val with
+            | Some fs => Some (match get_str F_MediaType fs, get_nlv F_Content fs with
+                               | [], None => None
+                               | mt, c => Some (FSource mt c)
+                               end)
+            | None => None
+            end
+          else if bytes_eqb getter (B "JSONGetActorEndpoints") then
+            match jget val term with
+            | None => Some None
+            | Some sub => match run_leaf (get_value d) (B "JSONGetActorEndpoints") sub with
+                          | Some fs => Some (Some (FEndpoints (Some (flat_map (fun p => match snd p with FItem i => [(fst p, i)] | _ => [] end) fs))))
+                          | None => None
+                          end
+            end
+          else if bytes_eqb getter (B "JSONGetPublicKey") then
+            match jget val term with
+            | None => Some None
+            | Some sub => match run_leaf (get_value d) (B "JSONLoadPublicKey") sub with
+                          | Some fs => Some (match get_str F_ID fs, get_str F_Owner fs, get_str F_PublicKeyPem fs with
+                                             | [], [], [] => None
+                                             | a, b, c => Some (FPubKey a b c)
+                                             end)
+                          | None => None
+                          end
+            end
+          else None
+      end.
+
+    (* the statements of a JSONLoad<Kind> table on val; [lt] = the table loader at the next depth, for delegations *)
+    Definition table_go (lt : bytes -> fjv -> list (fid * fval) -> option (list (fid * fval))) (val : fjv)
+      : list rstmt -> list (fid * fval) -> option (list (fid * fval)) :=
+      fix go (stmts : list rstmt) (acc : list (fid * fval)) : option (list (fid * fval)) :=
+        match stmts with
+        | [] => Some acc
+        | RProp fd tm g cv gd _ :: r =>
+            match get_value 3%nat val g tm cv with
+            | None => None
+            | Some None => go r acc
+            | Some (Some x) =>
+                let x' := link_guard gd x in
+                go r (if fval_is_zero x' then acc else setf fd x' acc)
+            end
+        | RDelegate _ fn _ :: r =>
+            match lt fn val acc with Some acc' => go r acc' | None => None end
+        | RUnrecognised _ _ :: _ => None
+        end.
+
+    (* a JSONLoad<Kind> table on val, delegations followed *)
+    Fixpoint run_table (depth : nat) (name : bytes) (val : fjv) (acc : list (fid * fval)) {struct depth}
+      : option (list (fid * fval)) :=
+      match depth with
+      | O => None
+      | S d =>
+          match jr_table jr_tables name with
+          | None => None
+          | Some stmts => table_go (run_table d) val stmts acc
+          end
+      end.
+
+    Definition as_string_iri (typ : bytes) (v : fjv) : option (option item) :=
+      match typ, v with
+      | [], FStr _ => match as_iri v with Some (Some s) => Some (Some (IIri false s)) | Some None => Some None | None => None end
+      | _, _ => Some None
+      end.
+
+    (* JSONLoadItem *)
+    Definition load_item_level (v : fjv) : option item :=
+      let typ := jstr (jget v (B "type")) in
+      match as_string_iri typ v with
+      | None => None
+      | Some (Some i) => Some i
+      | Some None =>
+          match registry typ with
+          | None => None
+          | Some created =>
+              match load_switch typ with
+              | None => Some INil                                (* unknown type, no JSONItemUnmarshal hook: error *)
+              | Some k =>
+                  if kind_beq k created then
+                    match run_table 6%nat (JsonCheck.load_table k) v [] with
+                    | None => None
+                    | Some fs =>
+                        let i := IObj true k (canon_fields k fs) in
+                        Some (if not_empty i then i else INil)
+                    end
+                  else None
+              end
+          end
+      end.
+  End Level.
+
   Fixpoint load_item (fuel : nat) (v : fjv) : option item :=
     match fuel with
     | O => None
-    | S f =>
-        (* JSONItemsFn on an array *)
-        let items_fn (l : list fjv) : option (list item) :=
-          (fix go (l : list fjv) (acc : list item) : option (list item) :=
-             match l with
-             | [] => Some acc
-             | x :: r => match load_item f x with
-                         | None => None
-                         | Some INil => go r acc
-                         | Some i => go r (ic_append acc [i])
-                         end
-             end) l [] in
-        let get_item (val : fjv) (prop : bytes) : option item :=
-          match jget val prop with
-          | None => Some INil
-          | Some (FStr raw) => match as_iri (FStr raw) with
-                               | Some (Some s) => Some (IIri false s)
-                               | Some None => Some INil
-                               | None => None
-                               end
-          | Some (FArr l) => match items_fn l with Some its => Some (IItems false (Some its)) | None => None end
-          | Some (FObj kvs) => load_item f (FObj kvs)
-          | Some _ => Some INil
-          end in
-        let get_uri_item (val : fjv) (prop : bytes) : option item :=
-          match jget val prop with
-          | None => Some INil
-          | Some (FObj kvs) => load_item f (FObj kvs)
-          | Some (FArr l) => match items_fn l with Some its => Some (IItems false (Some its)) | None => None end
-          | Some (FStr raw) => Some (IIri false (fj_unescape raw))
-          | Some _ => Some INil
-          end in
-        let get_items (val : fjv) (prop : bytes) : option (option (list item)) :=
-          match jget val prop with
-          | None => Some None
-          | Some (FArr l) => match items_fn l with Some [] => Some None | Some its => Some (Some its) | None => None end
-          | Some (FObj kvs) => match load_item f (FObj kvs) with
-                               | Some INil => Some None
-                               | Some i => Some (Some [i])
-                               | None => None
-                               end
-          | Some (FStr raw) => match fj_unescape raw with [] => Some None | s => Some (Some [IIri false s]) end
-          | Some _ => Some None
-          end in
-        (* one property through its getter; Some None = the zero value *)
-        let get_value :=
-          fix get_value (depth : nat) (val : fjv) (getter term conv : bytes) {struct depth} : option (option fval) :=
-            let sub_get (val : fjv) (term : bytes) : option fjv :=      (* "a.b": member b of member a *)
-              match cut_byte x2e term with
-              | (a, Some b) => match jget val a with Some s => jget s b | None => None end
-              | (a, None) => jget val a
-              end in
-            let str_val := Some (match jstr (sub_get val term) with [] => None | s => Some (Vocab.FStr s) end) in
-            let run (name : bytes) (sub : fjv) (depth' : nat) : option (list (fid * fval)) :=
-              (fix run_stmts (stmts : list rstmt) (acc : list (fid * fval)) : option (list (fid * fval)) :=
-                 match stmts with
-                 | [] => Some acc
-                 | RProp fd tm g cv gd _ :: r =>
-                     match get_value depth' sub g tm cv with
-                     | None => None
-                     | Some None => run_stmts r acc
-                     | Some (Some x) =>
-                         (* `x != nil;GetLink`: the link of the loaded item *)
-                         let x' := if bytes_eqb gd (B "x != nil;GetLink")
-                                   then match x with
-                                        | FItem i => match get_link i with Ok s => Vocab.FStr s | _ => Vocab.FStr [] end
-                                        | _ => x
-                                        end
-                                   else x in
-                         run_stmts r (if fval_is_zero x' then acc else setf fd x' acc)
-                     end
-                 | RDelegate _ fn _ :: r => None       (* leaf tables do not delegate *)
-                 | RUnrecognised _ _ :: _ => None
-                 end) (match jr_table jr_tables name with Some st => st | None => [RUnrecognised [] []] end) [] in
-            match depth with
-            | O => None
-            | S d =>
-                if existsb (bytes_eqb getter) [B "JSONGetID"; B "JSONGetType"; B "JSONGetMimeType"; B "JSONGetString"; B "JSONGetIRI";
-                                               B "JSONGetLangRefField"; B "val.GetStringBytes"; B "val.Get.GetStringBytes"] then str_val
-                else if bytes_eqb getter (B "JSONGetNaturalLanguageField") then
-                  match cut_byte x2e term with
-                  | (a, Some b) =>     (* JSONGetNaturalLanguageField(val.Get(a), b); kept only when non-empty *)
-                      match jget val a with
-                      | None => Some None
-                      | Some s => match get_nl_field false s b with
-                                  | Some ((_ :: _) as l) => Some (Some (FNlv (Some l)))
-                                  | _ => Some None
-                                  end
-                      end
-                  | (_, None) => match get_nl_field false val term with
-                                 | Some l => Some (Some (FNlv (Some l)))
-                                 | None => Some None
-                                 end
-                  end
-                else if bytes_eqb getter (B "JSONGetItem") then
-                  match get_item val term with Some INil => Some None | Some i => Some (Some (FItem i)) | None => None end
-                else if bytes_eqb getter (B "JSONGetURIItem") then
-                  match get_uri_item val term with Some INil => Some None | Some i => Some (Some (FItem i)) | None => None end
-                else if bytes_eqb getter (B "JSONGetItems") then
-                  match get_items val term with Some None => Some None | Some l => Some (Some (FItems l)) | None => None end
-                else if bytes_eqb getter (B "JSONGetTime") then
-                  match parse_rfc3339 (jstr (jget val term)) with
-                  | Some (Some t) => Some (Some (FTime t))
-                  | Some None => Some None
-                  | None => None
-                  end
-                else if bytes_eqb getter (B "JSONGetDuration") then
-                  match parse_xsd_duration (jstr (jget val term)) with Some 0 => Some None | Some d => Some (Some (FDur d)) | None => None end
-                else if bytes_eqb getter (B "JSONGetInt") then
-                  match get_int64 (jget val term) with
-                  | Some z => Some (if z =? 0 then None
-                                    else Some (if bytes_eqb conv (B "uint") then FUint (uint_of z) else FInt z))
-                  | None => None
-                  end
-                else if bytes_eqb getter (B "JSONGetFloat") then
-                  match get_float_micro (jget val term) with Some 0 => Some None | Some m => Some (Some (FFloat m)) | None => None end
-                else if bytes_eqb getter (B "JSONGetBoolean") then
-                  Some (match jget val term with Some FTrue => Some (FBool true) | _ => None end)
-                else if bytes_eqb getter (B "GetAPSource") then
-                  match run (B "GetAPSource") val d with
-                  | Some fs => Some (match get_str F_MediaType fs, get_nlv F_Content fs with
-                                     | [], None => None
-                                     | mt, c => Some (FSource mt c)
-                                     end)
-                  | None => None
-                  end
-                else if bytes_eqb getter (B "JSONGetActorEndpoints") then
-                  match jget val term with
-                  | None => Some None
-                  | Some sub => match run (B "JSONGetActorEndpoints") sub d with
-                                | Some fs => Some (Some (FEndpoints (Some (flat_map (fun p => match snd p with FItem i => [(fst p, i)] | _ => [] end) fs))))
-                                | None => None
-                                end
-                  end
-                else if bytes_eqb getter (B "JSONGetPublicKey") then
-                  match jget val term with
-                  | None => Some None
-                  | Some sub => match run (B "JSONLoadPublicKey") sub d with
-                                | Some fs => Some (match get_str F_ID fs, get_str F_Owner fs, get_str F_PublicKeyPem fs with
-                                                   | [], [], [] => None
-                                                   | a, b, c => Some (FPubKey a b c)
-                                                   end)
-                                | None => None
-                                end
-                  end
-                else None
-            end in
-        (* a JSONLoad<Kind> table on val, delegations followed *)
-        let load_table :=
-          fix load_table (depth : nat) (name : bytes) (val : fjv) (acc : list (fid * fval)) {struct depth} : option (list (fid * fval)) :=
-            match depth with
-            | O => None
-            | S d =>
-                match jr_table jr_tables name with
-                | None => None
-                | Some stmts =>
-                    (fix go (stmts : list rstmt) (acc : list (fid * fval)) : option (list (fid * fval)) :=
-                       match stmts with
-                       | [] => Some acc
-                       | RProp fd tm g cv gd _ :: r =>
-                           match get_value 3%nat val g tm cv with
-                           | None => None
-                           | Some None => go r acc
-                           | Some (Some x) =>
-                               let x' := if bytes_eqb gd (B "x != nil;GetLink")
-                                         then match x with
-                                              | FItem i => match get_link i with Ok s => Vocab.FStr s | _ => Vocab.FStr [] end
-                                              | _ => x
-                                              end
-                                         else x in
-                               go r (if fval_is_zero x' then acc else setf fd x' acc)
-                           end
-                       | RDelegate _ fn _ :: r =>
-                           match load_table d fn val acc with Some acc' => go r acc' | None => None end
-                       | RUnrecognised _ _ :: _ => None
-                       end) stmts acc
-                end
-            end in
-        (* JSONLoadItem *)
-        let typ := jstr (jget v (B "type")) in
-        let as_string_iri :=
-          match typ, v with
-          | [], FStr _ => match as_iri v with Some (Some s) => Some (Some (IIri false s)) | Some None => Some None | None => None end
-          | _, _ => Some None
-          end in
-        match as_string_iri with
-        | None => None
-        | Some (Some i) => Some i
-        | Some None =>
-            match registry typ with
-            | None => None
-            | Some created =>
-                match load_switch typ with
-                | None => Some INil                                (* unknown type, no JSONItemUnmarshal hook: error *)
-                | Some k =>
-                    if kind_beq k created then
-                      match load_table 6%nat (JsonCheck.load_table k) v [] with
-                      | None => None
-                      | Some fs =>
-                          let i := IObj true k (canon_fields k fs) in
-                          Some (if not_empty i then i else INil)
-                      end
-                    else None
-                end
-            end
-        end
+    | S f => load_item_level (load_item f) v
+    end.
+
+  (* fastjson's Object.Get compares the member names as written until its first miss on that object and the
+     unescaped names from then on (Object.keysUnescaped).  The two readings agree unless a name written with
+     an escape spells the name of a member written without one; which member the real decoder then reads
+     depends on the lookups made before (witness: {"typ\u0065":"Note","type":"Person","name":"x"} decodes to
+     an Actor whose type is Note; {"type":"Note","nam\u0065":"esc","name":"plain"} has the name "esc").  The
+     lookups of this model (jget = fj_get false) do not carry that state: documents holding such an object
+     are outside the model. *)
+  Definition keys_ambiguous (kvs : list (bytes * fjv)) : bool :=
+    existsb (fun kv : bytes * fjv =>
+               has_bs (fst kv) &&
+               existsb (fun kv' : bytes * fjv => negb (has_bs (fst kv')) && bytes_eqb (fj_unescape (fst kv)) (fst kv')) kvs) kvs.
+  Fixpoint keys_clean (v : fjv) : bool :=
+    match v with
+    | FObj kvs => negb (keys_ambiguous kvs) && forallb (fun kv : bytes * fjv => keys_clean (snd kv)) kvs
+    | FArr l => forallb keys_clean l
+    | _ => true
     end.
 
   (* JSONUnmarshalToItem *)
-  Definition unmarshal_to_item (v : fjv) : option item :=
-    let fuel := 64%nat in
+  Definition unmarshal_core (v : fjv) : option item :=
+    let rec := load_item 64%nat in
     match v with
-    | FArr l =>
-        (fix go (l : list fjv) (acc : list item) : option item :=
-           match l with
-           | [] => Some (IItems false (Some acc))
-           | x :: r => match load_item fuel x with
-                       | None => None
-                       | Some INil => go r acc
-                       | Some i => go r (ic_append acc [i])
-                       end
-           end) l []
-    | FObj _ => load_item fuel v
+    | FArr l => match items_fn rec l with Some acc => Some (IItems false (Some acc)) | None => None end
+    | FObj _ => rec v
     | FStr _ => match as_iri v with Some (Some s) => Some (IIri false s) | Some None => Some INil | None => None end
     | _ => Some INil
     end.
+  Definition unmarshal_to_item (v : fjv) : option item :=
+    if keys_clean v then unmarshal_core v else None.
 
   (* activitypub.UnmarshalJSON: Err = the parser rejected the document *)
   Definition unmarshal_json (b : bytes) : option (outcome item) :=
